@@ -391,7 +391,7 @@ func ruleActiveFile(c *Ctx) {
 		c.check(p == nil, fnName(f), "new active file gets its file id", c.P.ipos(st),
 			"every normal return after switching DB.ActiveFile has stored the id it was opened with into its fileID", "DB.ActiveFile is switched to a file opened as getDataPath("+dispPath(idArg)+") but its fileID field is left unset (0): index hints written afterwards name segment 0", c.witnessOf(p)...)
 	}
-	c.minInstances("assignments of a new DB.ActiveFile", n, 3)
+	c.minInstances("assignments of a new DB.ActiveFile", n, 1)
 }
 
 // ruleUpdateRecord: overwrite completeness.
